@@ -68,50 +68,54 @@ Definition upd {A} (f : nat -> A) (i : nat) (v : A) : nat -> A := fun j => if Na
 Record dstate := DS { ds_ctr : nat -> Z; ds_exit : Z; ds_done : nat -> bool }.
 Definition dyn_init : dstate := DS (fun _ => 0) 0 (fun _ => false).
 
-(* one claim event of worker w.  Returns the new state, the successful claim (global chunk number) if any,
-   and whether this worker's exit action runs the tail (no-wait path: ParallelFor's lastExit arithmetic) *)
-Definition dyn_step (c : dyncfg) (st : dstate) (w : nat) : dstate * option Z * bool :=
-  if ds_done st w || negb (Z.of_nat w <? dc_workers c) then (st, None, false) else
-  if dc_groups c <=? 1 then
-    (* single group: index.fetch_add(1); exitAction(cur) with cur == lastExit = numChunks + numToLaunch - 1 *)
-    let cur := ds_ctr st 0%nat in
-    let st1 := DS (upd (ds_ctr st) 0%nat (cur + 1)) (ds_exit st) (ds_done st) in
-    if dc_nc c <=? cur then
-      (DS (ds_ctr st1) (ds_exit st1) (upd (ds_done st1) w true), None,
-       negb (dc_wait c) && (cur =? dc_nc c + dc_launch c - 1))
-    else (st1, Some cur, false)
-  else
-    let g := grp_of_worker c (Z.of_nat w) in
-    let gi := Z.to_nat g in
-    let cur := ds_ctr st gi in
-    let st1 := DS (upd (ds_ctr st) gi (cur + 1)) (ds_exit st) (ds_done st) in
-    if grp_count c g <=? cur then
-      (* exitCounter.fetch_add(1); the worker that observes the final count runs exitAction(numChunks+totalWorkers-1) *)
-      let prev := ds_exit st in
-      (DS (ds_ctr st1) (prev + 1) (upd (ds_done st1) w true), None,
-       negb (dc_wait c) && (prev + 1 =? dc_workers c) && (dc_nc c + dc_workers c - 1 =? dc_nc c + dc_launch c - 1))
-    else (st1, Some (grp_start c g + cur), false).
+(* the counter a worker claims from, its chunk count and first chunk; with one group that is the shared index *)
+Definition wgroup (c : dyncfg) (w : nat) : nat :=
+  if dc_groups c <=? 1 then 0%nat else Z.to_nat (grp_of_worker c (Z.of_nat w)).
+Definition gcount (c : dyncfg) (g : nat) : Z := if dc_groups c <=? 1 then dc_nc c else grp_count c (Z.of_nat g).
+Definition gstart (c : dyncfg) (g : nat) : Z := if dc_groups c <=? 1 then 0 else grp_start c (Z.of_nat g).
+Definition ngroups (c : dyncfg) : nat := if dc_groups c <=? 1 then 1%nat else Z.to_nat (dc_groups c).
 
-(* run a schedule: body invocations in the order in which they are claimed *)
-Fixpoint dyn_run (c : dyncfg) (st : dstate) (sched : list nat) : dstate * list (Z * Z) :=
+(* one claim event of worker w: index.fetch_add(1) on its counter.  Returns the new state, the successful claim
+   (counter, value) if any, and whether this worker's exit action runs the tail.
+   Tail (no-wait path only, parallel_for_dynamicNoWaitDispatch): single group: exitAction(cur) with
+   cur == lastExit = numChunks + numToLaunch - 1; several groups: the worker that takes exitCounter to totalWorkers
+   calls exitAction(numChunks + totalWorkers - 1).  ds_exit counts exited workers (exitCounter; ghost with one group). *)
+Definition dyn_step (c : dyncfg) (st : dstate) (w : nat) : dstate * option (nat * Z) * bool :=
+  if ds_done st w || negb (Z.of_nat w <? dc_workers c) then (st, None, false) else
+  let g := wgroup c w in
+  let cur := ds_ctr st g in
+  let ctr1 := upd (ds_ctr st) g (cur + 1) in
+  if gcount c g <=? cur then
+    let prev := ds_exit st in
+    (DS ctr1 (prev + 1) (upd (ds_done st) w true), None,
+     negb (dc_wait c) &&
+     (if dc_groups c <=? 1 then cur =? dc_nc c + dc_launch c - 1
+      else (prev + 1 =? dc_workers c) && (dc_nc c + dc_workers c - 1 =? dc_nc c + dc_launch c - 1)))
+  else (DS ctr1 (ds_exit st) (ds_done st), Some (g, cur), false).
+
+(* run a schedule: successful claims in claim order, and how often an exit action ran the tail *)
+Fixpoint dyn_run (c : dyncfg) (st : dstate) (sched : list nat) : dstate * list (nat * Z) * nat :=
   match sched with
-  | [] => (st, [])
+  | [] => (st, [], 0%nat)
   | w :: r =>
       let '(st1, claim, tl) := dyn_step c st w in
-      let '(st2, calls) := dyn_run c st1 r in
-      (st2, (match claim with Some gc => [dyn_chunk c gc] | None => [] end)
-            ++ (if tl then dc_tail c else []) ++ calls)
+      let '(st2, claims, tails) := dyn_run c st1 r in
+      (st2, (match claim with Some cl => [cl] | None => [] end) ++ claims, ((if tl then 1 else 0) + tails)%nat)
   end.
+
+Definition claim_call (c : dyncfg) (cl : nat * Z) : Z * Z := dyn_chunk c (gstart c (fst cl) + snd cl).
 
 Definition dyn_all_done (c : dyncfg) (st : dstate) : bool :=
   forallb (ds_done st) (seq 0 (Z.to_nat (dc_workers c))).
 
-(* everything the body is called with once all workers have left their loops; on the wait path the caller
-   runs the tail after taskSet.wait() (parallel_for.h:673) *)
+(* everything the body is called with once all workers have left their loops (as a multiset; the list is in claim
+   order followed by the tail invocations).  On the wait path the caller runs the tail after taskSet.wait()
+   (parallel_for.h:673); on the no-wait path it runs as often as an exit action fired *)
 Definition dyn_calls (c : dyncfg) (sched : list nat) : list (Z * Z) :=
-  snd (dyn_run c dyn_init sched) ++ (if dc_wait c then dc_tail c else []).
+  let '(_, claims, tails) := dyn_run c dyn_init sched in
+  map (claim_call c) claims ++ (if dc_wait c then dc_tail c else concat (repeat (dc_tail c) tails)).
 Definition dyn_complete (c : dyncfg) (sched : list nat) : bool :=
-  dyn_all_done c (fst (dyn_run c dyn_init sched)).
+  dyn_all_done c (fst (fst (dyn_run c dyn_init sched))).
 
 (* the schedule-independent answer: chunk 0 .. numChunks-1 in index order, then the tail *)
 Definition dyn_canon (c : dyncfg) : list (Z * Z) :=
